@@ -150,6 +150,7 @@ func checkC09(p *Prog, r *Result, tier string) {
 	// ---- UN2 / UN3: entry literals
 	accP, ansP := M.paramObj(0), M.paramObj(1)
 	nlit := 0
+	var litInfos []mergeLit
 	ast.Inspect(M.Body, func(n ast.Node) bool {
 		lit, ok := n.(*ast.CompositeLit)
 		if !ok {
@@ -164,34 +165,12 @@ func checkC09(p *Prog, r *Result, tier string) {
 		}
 		nlit++
 		// sources: range/lookup variables bound to entries of the accumulator or of the answer at this literal
+		srcFull, conds, condsOK := mergeSources(M, lit, accP, ansP)
+		litInfos = append(litInfos, mergeLit{lit, srcFull, conds, condsOK})
 		srcKind := map[types.Object]string{}
-		ast.Inspect(M.Body, func(x ast.Node) bool {
-			switch s := x.(type) {
-			case *ast.RangeStmt:
-				if s.Body.Pos() <= lit.Pos() && lit.End() <= s.Body.End() && s.Value != nil {
-					switch M.objOf(s.X) {
-					case accP:
-						srcKind[M.objOf(s.Value)] = "acc"
-					case ansP:
-						srcKind[M.objOf(s.Value)] = "ans"
-					}
-				}
-			case *ast.IfStmt:
-				if s.Body.Pos() <= lit.Pos() && lit.End() <= s.Body.End() {
-					if as, ok := s.Init.(*ast.AssignStmt); ok && len(as.Lhs) == 2 && len(as.Rhs) == 1 {
-						if ix, ok := unparen(as.Rhs[0]).(*ast.IndexExpr); ok && exprStr(s.Cond) == exprStr(as.Lhs[1]) {
-							switch M.objOf(ix.X) {
-							case accP:
-								srcKind[M.objOf(as.Lhs[0])] = "acc"
-							case ansP:
-								srcKind[M.objOf(as.Lhs[0])] = "ans"
-							}
-						}
-					}
-				}
-			}
-			return true
-		})
+		for o, k := range srcFull {
+			srcKind[o] = k.kind
+		}
 		key := fmt.Sprintf("%s / entry literal #%d carries weight-scaled sums", M.Name, nlit)
 		fields := map[string]ast.Expr{}
 		for _, el := range lit.Elts {
@@ -293,32 +272,39 @@ func checkC09(p *Prog, r *Result, tier string) {
 	// never when it is merely empty: an empty accumulator is a genuine empty intersection and must stay empty
 	{
 		n4 := 0
-		ast.Inspect(M.Body, func(n ast.Node) bool {
-			is, ok := n.(*ast.IfStmt)
-			if !ok {
-				return true
+		for _, li := range litInfos {
+			// an entry built from the answer alone
+			nAns, nAcc := 0, 0
+			for _, k := range li.src {
+				if k.kind == "ans" {
+					nAns++
+				} else {
+					nAcc++
+				}
 			}
-			// does the then-branch build entries from the answer alone (range over the answer, no lookup in the accumulator)?
-			rangesAns, usesAcc := false, false
-			ast.Inspect(is.Body, func(x ast.Node) bool {
-				if rs, ok := x.(*ast.RangeStmt); ok && M.objOf(rs.X) == ansP {
-					rangesAns = true
-				}
-				if id, ok := x.(*ast.Ident); ok && M.objOf(id) == accP {
-					usesAcc = true
-				}
-				return true
-			})
-			if !rangesAns || usesAcc {
-				return true
+			if nAns != 1 || nAcc != 0 {
+				continue
 			}
 			n4++
-			be, ok := unparen(is.Cond).(*ast.BinaryExpr)
-			good := ok && be.Op == token.EQL && ((M.objOf(be.X) == accP && isNilIdent(be.Y)) || (M.objOf(be.Y) == accP && isNilIdent(be.X)))
-			r.check(good, "UN4", fmt.Sprintf("%s / first-answer path #%d is taken only for a nil accumulator", M.Name, n4), p.pos(is), "guard is `acc == nil`",
-				"the path that copies one answer is guarded by `"+exprStr(is.Cond)+"`, not by `acc == nil`: an accumulator that is empty because two plugins offered disjoint node sets (or one offered none) is mistaken for 'nothing merged yet' and the next answer's nodes are offered although an earlier plugin did not offer them; the outcome then depends on the answer order")
-			return true
-		})
+			good, seen := false, []string{}
+			for _, c := range li.conds {
+				be, ok := unparen(c.Expr).(*ast.BinaryExpr)
+				if ok && (be.Op == token.EQL || be.Op == token.NEQ) && ((M.objOf(be.X) == accP && isNilIdent(be.Y)) || (M.objOf(be.Y) == accP && isNilIdent(be.X))) {
+					if (be.Op == token.EQL) == c.Pos {
+						good = true
+					}
+				}
+				if M.usesObj(c.Expr, accP) {
+					pre := ""
+					if !c.Pos {
+						pre = "not "
+					}
+					seen = append(seen, pre+"`"+exprStr(c.Expr)+"`")
+				}
+			}
+			r.check(good && li.condsOK, "UN4", fmt.Sprintf("%s / first-answer path #%d is taken only for a nil accumulator", M.Name, n4), p.pos(li.lit), "reached only when `acc == nil`",
+				"the path that copies one answer is reached under "+strings.Join(seen, " and ")+", not exactly when `acc == nil`: an accumulator that is empty because two plugins offered disjoint node sets (or one offered none) is mistaken for 'nothing merged yet' and the next answer's nodes are offered although an earlier plugin did not offer them; the outcome then depends on the answer order")
+		}
 		if n4 == 0 {
 			r.undecided("UN4", M.Name+" / first-answer path", p.pos(M.Decl), "no branch that copies a single answer found: the fold from a nil accumulator cannot start")
 		}
@@ -335,35 +321,35 @@ func checkC09(p *Prog, r *Result, tier string) {
 			}
 		}
 	}
-	// UN3: the two-operand path keeps a node only under an ok-checked lookup in the other operand
+	// UN3: the two-operand path keeps a node only under an ok-checked lookup in the other operand: every entry built while
+	// walking one operand also has a source found — present — in the other, under the same node name
 	{
-		ok := false
-		ast.Inspect(M.Body, func(n ast.Node) bool {
-			rs, isR := n.(*ast.RangeStmt)
-			if !isR || M.objOf(rs.X) != accP {
-				return true
-			}
-			for _, st := range rs.Body.List {
-				if is, isIf := st.(*ast.IfStmt); isIf && is.Else == nil {
-					if as, isA := is.Init.(*ast.AssignStmt); isA && len(as.Lhs) == 2 {
-						if ix, isIx := unparen(as.Rhs[0]).(*ast.IndexExpr); isIx && M.objOf(ix.X) == ansP && rs.Key != nil && M.objOf(ix.Index) == M.objOf(rs.Key) && exprStr(is.Cond) == exprStr(as.Lhs[1]) {
-							// nothing is stored for this node outside the if
-							only := true
-							for _, other := range rs.Body.List {
-								if other != st {
-									if _, isAssign := other.(*ast.AssignStmt); isAssign {
-										only = false
-									}
-								}
-							}
-							ok = only
-						}
-					}
+		ok, n3 := true, 0
+		for _, li := range litInfos {
+			var ranged, looked []mergeSrc
+			for _, k := range li.src {
+				if k.lookup {
+					looked = append(looked, k)
+				} else {
+					ranged = append(ranged, k)
 				}
 			}
-			return true
-		})
-		r.check(ok, "UN3", M.Name+" / a node is offered only if every plugin offers it", p.pos(M.Decl), "entries are stored only under `if other, ok := answer[node]; ok`", "a node missing from one plugin's answer can still be offered")
+			hasAcc := false
+			for _, k := range li.src {
+				if k.kind == "acc" {
+					hasAcc = true
+				}
+			}
+			if !hasAcc {
+				continue
+			}
+			n3++
+			good := len(ranged) == 1 && len(looked) == 1 && ranged[0].kind != looked[0].kind && looked[0].key != nil && looked[0].key == ranged[0].key && li.condsOK
+			if !good {
+				ok = false
+			}
+		}
+		r.check(ok && n3 > 0, "UN3", M.Name+" / a node is offered only if every plugin offers it", p.pos(M.Decl), "entries are stored only under `other, ok := answer[node]` with ok true", "a node missing from one plugin's answer can still be offered")
 	}
 	// RM: the other aggregation over the plugins that is keyed by workload (remap parameters): the plugins' answers for one
 	// workload are kept side by side under each plugin's name, never one replacing the other (shared with C32)
@@ -373,4 +359,74 @@ func checkC09(p *Prog, r *Result, tier string) {
 		r.min("RM", 1)
 		checkRemapMerge(p, r, MR, "RM")
 	}
+}
+
+// mergeSrc is one operand entry in scope at an entry literal of the merge function.
+type mergeSrc struct {
+	kind   string       // acc | ans
+	lookup bool         // bound by an ok-checked map lookup (else: the value of an enclosing range)
+	key    types.Object // the range key / the lookup index variable
+}
+
+type mergeLit struct {
+	lit     *ast.CompositeLit
+	src     map[types.Object]mergeSrc
+	conds   []condLit
+	condsOK bool
+}
+
+// mergeSources: the accumulator/answer entries in scope at lit — values of the enclosing range loops over an operand, and
+// variables bound by `v, ok := operand[k]` (as an if's init or as a statement) when lit is reached only with ok true —
+// together with the structured path condition of lit.
+func mergeSources(M *FuncNode, lit *ast.CompositeLit, accP, ansP types.Object) (map[types.Object]mergeSrc, []condLit, bool) {
+	src := map[types.Object]mergeSrc{}
+	kindOf := func(o types.Object) string {
+		switch o {
+		case accP:
+			return "acc"
+		case ansP:
+			return "ans"
+		}
+		return ""
+	}
+	conds, ok := pathConds(M.Body, lit)
+	// conditions that hold at lit, by the object of a plain (possibly negated) identifier
+	holds := map[types.Object]bool{}
+	for _, c := range conds {
+		e, pos := unparen(c.Expr), c.Pos
+		for {
+			u, isNot := e.(*ast.UnaryExpr)
+			if !isNot || u.Op != token.NOT {
+				break
+			}
+			e, pos = unparen(u.X), !pos
+		}
+		if o := M.objOf(e); o != nil && pos {
+			holds[o] = true
+		}
+	}
+	ast.Inspect(M.Body, func(x ast.Node) bool {
+		switch s := x.(type) {
+		case *ast.RangeStmt:
+			if s.Body.Pos() <= lit.Pos() && lit.End() <= s.Body.End() && s.Value != nil {
+				if k := kindOf(M.objOf(s.X)); k != "" {
+					var key types.Object
+					if s.Key != nil {
+						key = M.objOf(s.Key)
+					}
+					src[M.objOf(s.Value)] = mergeSrc{k, false, key}
+				}
+			}
+		case *ast.AssignStmt:
+			if len(s.Lhs) == 2 && len(s.Rhs) == 1 && s.Pos() < lit.Pos() {
+				if ix, isIx := unparen(s.Rhs[0]).(*ast.IndexExpr); isIx {
+					if k := kindOf(M.objOf(ix.X)); k != "" && holds[M.objOf(s.Lhs[1])] {
+						src[M.objOf(s.Lhs[0])] = mergeSrc{k, true, M.objOf(ix.Index)}
+					}
+				}
+			}
+		}
+		return true
+	})
+	return src, conds, ok
 }
